@@ -13,6 +13,8 @@ import (
 	"encoding/json"
 	"fmt"
 	"io"
+	"net"
+	"net/http"
 	"net/http/httptest"
 	"sort"
 	"strings"
@@ -529,3 +531,49 @@ func RunLHist(cfg LHistCfg, hist []string) LHistRes {
 	}
 	return LHistRes{Key: h.Key(), Menu: h.Menu(), Viol: h.viol}
 }
+
+// ---- exported helpers for harnesses of other packages (C16)
+
+// NewNamedLWorld creates a lookupd whose broadcast address is name.
+func NewNamedLWorld(name string) (*LWorld, error) {
+	w, err := NewLWorld()
+	if err == nil {
+		w.L.opts.BroadcastAddress = name
+	}
+	return w, err
+}
+
+// HandleConn serves one TCP connection with the real tcpServer.Handle.
+func (w *LWorld) HandleConn(c net.Conn) { w.L.tcpServer.Handle(c) }
+
+// Router is the real HTTP handler.
+func (w *LWorld) Router() http.Handler { return w.HTTP }
+
+// Producers lists "topic" and "topic/channel" keys for which a producer with the given
+// broadcast address is registered (and every key, with its producers, when addr is "").
+func (w *LWorld) KeysOf(addr string) []string {
+	var out []string
+	w.L.DB.RLock()
+	defer w.L.DB.RUnlock()
+	for k, ps := range w.L.DB.registrationMap {
+		if k.Category == "client" {
+			continue
+		}
+		for _, p := range ps {
+			if p.peerInfo.BroadcastAddress == addr {
+				name := k.Key
+				if k.SubKey != "" {
+					name += "/" + k.SubKey
+				}
+				out = append(out, k.Category+":"+name)
+			}
+		}
+	}
+	sort.Strings(out)
+	return out
+}
+
+// CloseAll closes every producer connection (a lookupd going away).
+func (w *LWorld) CloseAll() { w.L.tcpServer.Close() }
+
+func (w *LWorld) HTTPPort() int { return w.L.RealHTTPAddr().Port }
